@@ -187,8 +187,26 @@ class NodeSpace:
         # names: the class's own _name logic runs (cloned); only the content hash under it is
         # replaced by a structural digest of the operands (sym_tokenize), so structurally equal
         # nodes still share a name and naming conventions ("rechunk-merge-", ...) are the repo's
-        d["deterministic_token"] = _SymAttr(
-            "deterministic_token", lambda self: sym_tokenize(real.__name__, *self.operands), True)
+        # ... unless the repository class defines its own __dask_tokenize__ (Blockwise, Elemwise, Reduction, PartialReduce,
+        # FromArray ...): then that (cloned) method decides *what* goes into the token -- its tokenize calls resolve to the
+        # structural digest -- so a tokenizer that leaves an operand out makes two different nodes share a name here too
+        own_tok = None
+        for klass in real.__mro__:
+            if "__dask_tokenize__" in klass.__dict__:
+                if (klass.__module__ or "") in self.world.ns and "__dask_tokenize__" in d:
+                    own_tok = d["__dask_tokenize__"]
+                break
+
+        def _token(self, own_tok=own_tok):
+            if own_tok is not None:
+                object.__setattr__(self, "_determ_token", None)
+                try:
+                    return sym_tokenize(real.__name__, own_tok(self))
+                finally:
+                    object.__setattr__(self, "_determ_token", None)
+            return sym_tokenize(real.__name__, *self.operands)
+
+        d["deterministic_token"] = _SymAttr("deterministic_token", _token, True)
         d["_symx_real"] = real
         d["__repr__"] = lambda self: f"<{real.__name__} {self.__dict__.get('_name', '?')}>"
         if not any("__str__" in k.__dict__ for k in real.__mro__ if (k.__module__ or "").startswith("dask_array")):
